@@ -134,8 +134,74 @@ def swallowed_identity_errors(ctx):
     ctx.floor("C20.R4", "identity system calls in set_owner_process", n, 3)
 
 
+def identity_table(ctx, rid):
+    """set_owner_process evaluated over configured (uid, gid, initgroups) x the process's current (uid, gid): the ordered list
+    of identity system calls it makes. Required: with a group configured, initgroups(user, gid) whenever initgroups is on --
+    also when the primary group already is the configured one (the *supplementary* groups are still the master's); setgid(gid)
+    whenever the primary group differs; setuid(uid) whenever a different user is configured; every group call before setuid;
+    nothing when nothing is configured."""
+    repo = ctx.repo
+    from ..absint import SpecObj
+    f = ctx.fn(repo.func(UTIL + ".set_owner_process"))
+    g = f.cfg
+    UID, GID, INIT = f.params[0], f.params[1], f.params[2]
+
+    def atom_of(e):
+        if isinstance(e, ast.Call) and not e.args:
+            q = repo.call_target(f.module, f, e)
+            if q in ("os.getuid", "os.geteuid"):
+                return "CURUID"
+            if q in ("os.getgid", "os.getegid"):
+                return "CURGID"
+        if isinstance(e, ast.Call) and repo.call_target(f.module, f, e) == "pwd.getpwuid":
+            return "PWENT"          # the configured user has a passwd entry (the other case is the KeyError clause's)
+        return None
+
+    def arg(i):
+        def fn(ex, c, env):
+            return ex.ev(c.args[i], env) if len(c.args) > i else None
+        return fn
+    traces = {"os.setgid": arg(0), "os.setuid": arg(0), "os.initgroups": arg(1), "os.setgroups": arg(0), "os.setregid": arg(0), "os.setresgid": arg(0), "os.setreuid": arg(0), "os.setresuid": arg(0)}
+    n = 0
+    for uid in (0, 33):
+        for gid in (0, 33):
+            for init in (False, True):
+                for cu in (0, 33):
+                    for cg in (0, 33):
+                        if cu != 0 and (uid not in (0, cu) or gid not in (0, cg)):
+                            continue          # an unprivileged master cannot be configured to change identity
+                        n += 1
+                        outs = Explorer(f, atom_of=atom_of, call_trace=traces).run(g.entry, {UID: uid, GID: gid, INIT: init, "CURUID": cu, "CURGID": cg, "PWENT": SpecObj(pw_name="user%d" % uid, pw_uid=uid, pw_gid=gid)})
+                        outs = [o for o in outs if o.kind == "return"]
+                        row = "uid=%s gid=%s initgroups=%s, running as %s:%s" % (uid, gid, init, cu, cg)
+                        ctx.need(outs, "%s: set_owner_process has no normal outcome for %s" % (rid, row))
+                        for o in outs:
+                            tr = [(q.split(".")[-1], v) for q, v in o.env.get(Explorer.TRACE, ())]
+                            names_ = [q for q, v in tr]
+                            problems = []
+                            if gid and init and ("initgroups", gid) not in tr:
+                                problems.append("os.initgroups(user, %s) is not called: the worker keeps the master's supplementary groups" % gid)
+                            if gid and gid != cg and not any(q in ("setgid", "setregid", "setresgid") and v == gid for q, v in tr):
+                                problems.append("os.setgid(%s) is not called: the worker keeps the master's primary group" % gid)
+                            if uid and uid != cu and not any(q in ("setuid", "setreuid", "setresuid") and v == uid for q, v in tr):
+                                problems.append("os.setuid(%s) is not called: the worker keeps running as the master's user" % uid)
+                            if not gid and any(q in ("setgid", "initgroups", "setgroups", "setregid", "setresgid") for q in names_):
+                                problems.append("a group call is made although no group is configured")
+                            if not uid and any(q in ("setuid", "setreuid", "setresuid") for q in names_):
+                                problems.append("setuid is called although no user is configured")
+                            if any(v not in (uid, gid) for q, v in tr):
+                                problems.append("an identity call gets something else than the configured id: %s" % (tr,))
+                            us = [i for i, q in enumerate(names_) if q in ("setuid", "setreuid", "setresuid")]
+                            if us and any(q in ("setgid", "initgroups", "setgroups", "setregid", "setresgid") for q in names_[us[0]:]):
+                                problems.append("a group call follows setuid (it would fail with EPERM)")
+                            ctx.check(rid, not problems, key(f, "identity-table|%s|%s|%s|%s|%s" % (uid, gid, init, cu, cg)), site(f, text=row),
+                                      "set_owner_process with %s makes the calls %s: %s" % (row, tr, "; ".join(problems)), "calls %s" % (tr,))
+    ctx.count("identity table rows", n)
+
+
 def r4(ctx):
     swallowed_identity_errors(ctx)
+    identity_table(ctx, "C20.R4")
     repo = ctx.repo
     f = ctx.fn(repo.func(UTIL + ".set_owner_process"))
     g = f.cfg
